@@ -156,6 +156,10 @@ func runC08(c *Ctx) {
 	// a connected block is always written: no shortcut through the in-memory stamp, which runs ahead of the database
 	// after a rolled-back transaction (C15-R2's rule)
 	c.Borrow(runC15, "C15-R2", "C08-R2", func(k string) bool { return strings.HasPrefix(k, "connect-always-moves-tip") })
+	// the database half of SetSyncedTo always writes what the memory half then shows (C15-R3's rules)
+	c.Borrow(runC15, "C15-R3", "C08-R2", func(k string) bool {
+		return strings.HasPrefix(k, "success-writes:") || strings.HasPrefix(k, "stamp-write-unconditional")
+	})
 	// the same for the account names and for the scope registry: the running manager answers what a freshly opened one would
 	checkMustPassOnSuccess(c, "C08-R2", "account-name-answered-from-database", c.P.Func("waddrmgr", "ScopedKeyManager", "AccountName"), "fetchAccountName",
 		"ScopedKeyManager.AccountName can answer from the account cache without reading the database: RenameAccount writes the cached name before its transaction commits, so after a rolled-back rename the running manager reports a name a restarted manager does not know")
